@@ -388,10 +388,24 @@ def _ber_nested_choice_recursive(env, mod, t, v, codec):
             if ls or cr.base.kind != 'CHOICE':
                 continue
             for c2 in all_comps(cr.base):
-                if is_recursive_ref(env, cr.mod, c2.t):
+                if _contains_recursive_ref(env, cr.mod, c2.t):
                     return True
     return False
 
+
+def _contains_recursive_ref(env, mod, t):
+    """t, or a component / element written inline below it, is a reference to a type on a reference cycle."""
+    stack = [t]
+    while stack:
+        x = stack.pop()
+        if x.kind == 'REF':
+            if is_recursive_ref(env, mod, x):
+                return True
+        elif x.kind in ('SEQUENCE', 'SET', 'CHOICE'):
+            stack.extend(c.t for c in all_comps(x))
+        elif x.kind in ('SEQUENCE OF', 'SET OF'):
+            stack.append(x.elem)
+    return False
 
 
 @carve('der-set-extension-additions-not-in-tag-order', ['C03'])
@@ -626,4 +640,67 @@ def _ber_nested_ext_choice(env, mod, t, v, codec):
             ls, cr = tagging.layers(env, r.mod, c.t, auto.get(c.name))
             if not ls and env.is_extensible(cr):
                 return True
+    return False
+
+
+def _recursive_aliases(env):
+    """(module name, type name) of every type assignment that is a bare reference and lies on a reference cycle."""
+    out = set()
+    for m in env.spec.modules:
+        for name, t in m.types():
+            if t.kind == 'REF' and _reaches(env, m, name, (m.name, name), set()):
+                out.add((m.name, name))
+    return out
+
+
+@carve('xer-list-of-alias-of-recursive-type-recursion-error', ['C19', 'C01', 'C02', 'C13', 'C18', 'C07'])
+def _xer_alias_recursive(env, mod, t, v, codec):
+    """XER: SEQUENCE/SET OF whose element is an alias (A ::= B) on a reference cycle: RecursionError in encode,
+    depending on the order of the assignments."""
+    if codec != 'xer':
+        return False
+    aliases = _recursive_aliases(env)
+    if not aliases:
+        return False
+    seen = set()
+    stack = [(mod, t)]
+    while stack:
+        m, x = stack.pop()
+        if x.kind == 'REF':
+            try:
+                m2, a2 = env.lookup(m, x.ref)
+            except KeyError:
+                continue
+            if (m2.name, a2.name) in aliases:
+                return True
+            if (m2.name, a2.name) in seen:
+                continue
+            seen.add((m2.name, a2.name))
+            stack.append((m2, a2.t))
+        elif x.kind in ('SEQUENCE', 'SET', 'CHOICE'):
+            stack.extend((m, c.t) for c in all_comps(x))
+        elif x.kind in ('SEQUENCE OF', 'SET OF'):
+            stack.append((m, x.elem))
+    return False
+
+
+@carve('ber-choice-alternatives-of-one-recursive-type', ['C19'])
+def _ber_choice_two_alts_one_recursive(env, mod, t, v, codec):
+    """BER/DER: a CHOICE with two alternatives that reference the same recursive named type (one of them re-tagged)."""
+    if codec not in ('ber', 'der'):
+        return False
+    for r in _constructed_nodes(env, mod, t):
+        if r.base.kind != 'CHOICE':
+            continue
+        seen = {}
+        for c in all_comps(r.base):
+            if c.t.kind == 'REF' and is_recursive_ref(env, r.mod, c.t):
+                try:
+                    m2, a2 = env.lookup(r.mod, c.t.ref)
+                except KeyError:
+                    continue
+                k = (m2.name, a2.name)
+                if k in seen:
+                    return True
+                seen[k] = True
     return False
